@@ -23,6 +23,7 @@ from sa.pyfront import Program
 from sa.symex import Interp
 
 RULES = {
+    "R-C05-i": "every sub-cube task walks its dimensions unconditionally - also when a dimension has no stored entry, which happens exactly when all its rows hold the common value (imported from C02 R-C02-g): otherwise the margins that differencing needs are never written for that encoding only",
     "R-C05-h": "the walk presents every non-empty uncommon and marginal combination exactly once (imported from the C14 schema analysis): the split between visited cells and differenced cells is the only place where the choice of common value enters",
     "R-C05-g": "the index methods the cubes read a dimension through (slices1d, sliced, items, get, common_rowids, copy) write nothing on the index (imported from the C17 frame analysis): a memo kept on the index survives an in-place shift_common and feeds the old entry set to the next cube",
     "R-C05-f": "every near-zero test that decides 'this differenced counter is zero' (adjust_zeros' default, ffunc_count/xfunc_count.reduce) uses isclose(x, 0) with NumPy's default absolute tolerance, as documented - not a narrower one",
@@ -254,6 +255,16 @@ def main(tier):
         rep.add("R-C05-h", o.where, "[%s] %s" % (o.rule, o.construct), o.status, o.detail, True,
                 o.witness if o.status != "VIOLATED" else {"history": "three dimensions, the middle one re-encoded to a rare common value: marginal cells are never written and the differenced common cells come out negative"})
     rep.floor("R-C05-h", 30, len(sub14.obls))
+    # R-C05-i: which cells a sub-cube task leaves to differencing depends on the encoding (a dimension all of whose rows
+    # hold the common value has NO entry at all): the task must still walk, so that the margins of the other dimensions
+    # are written - C02's rule R-C02-g (no early return from the task, the walk unconditional)
+    import c02
+    sub2g = core.Report("C02", level="other", rules=c02.RULES, tier=tier)
+    c02.rule_g(prog, sub2g)
+    for o in sub2g.obls:
+        rep.add("R-C05-i", o.where, "[%s] %s" % (o.rule, o.construct), o.status, o.detail, True,
+                o.witness if o.status != "VIOLATED" else dict(o.witness or {}, history="a dimension whose rows all hold category c, encoded with c as common, crossed with another dimension: every cell but the all-common one reads as missing; any other encoding is right"))
+    rep.floor("R-C05-i", 2, len(sub2g.obls))
     return rep.finish()
 
 
